@@ -38,6 +38,8 @@ impl Key {
 #[derive(Clone, Copy, Debug, PartialEq, Eq)]
 pub enum Kind {
     Cw20Accounts,
+    /// AllAccounts over a store in which runs of accounts (start, middle, end of the key order) were emptied
+    Cw20AccountsEmptied,
     Cw20OwnerAllowances,
     Cw20SpenderAllowances,
     /// cw1-subkeys AllAllowances; pattern of expiring entries and the block of the query
@@ -111,6 +113,7 @@ pub fn listings() -> Vec<Listing> {
     };
     vec![
         l("cw20-base/AllAccounts", Cw20Accounts, "all_accounts", "accounts", None, "start_after", false, false, 0),
+        l("cw20-base/AllAccounts[emptied-runs]", Cw20AccountsEmptied, "all_accounts", "accounts", None, "start_after", false, false, 0),
         l("cw20-base/AllAllowances", Cw20OwnerAllowances, "all_allowances", "allowances", Some("spender"), "start_after", false, false, 0),
         l("cw20-base/AllSpenderAllowances", Cw20SpenderAllowances, "all_spender_allowances", "allowances", Some("owner"), "start_after", false, false, 0),
         l("cw1-subkeys/AllAllowances[mix@before-expiry]", Cw1Allowances(ExpPattern::Mix, At::Before), "all_allowances", "allowances", Some("spender"), "start_after", false, true, 0),
@@ -148,10 +151,35 @@ pub struct Built {
     pub expected: Vec<(Key, Value)>,
     /// every key stored under the listing's prefix (current items and filtered ones), ascending
     pub stored: Vec<Key>,
+    /// the listing drops some stored entries: a short (non-empty) page before the end is tolerated
+    pub filtered: bool,
+    /// a second admissible reading of "current item" (cw20 accounts whose balance was emptied: the
+    /// property does not say whether they are still items). A listing may follow either reading,
+    /// but must follow one of them completely.
+    pub alt: Option<Vec<(Key, Value)>>,
     /// number of point queries made to confirm the key set
     pub point_queries: u64,
     /// number of entry-point calls used to build the store
     pub build_calls: u64,
+}
+
+impl Built {
+    /// the same store read with the alternative notion of "current item" (entries outside it count
+    /// as filtered)
+    pub fn alternative(&self) -> Option<Built> {
+        let alt = self.alt.clone()?;
+        Some(Built {
+            w: self.w.clone(),
+            contract: self.contract.clone(),
+            args: self.args.clone(),
+            expected: alt,
+            stored: self.stored.clone(),
+            filtered: true,
+            alt: None,
+            point_queries: self.point_queries,
+            build_calls: self.build_calls,
+        })
+    }
 }
 
 // ------------------------------------------------------------------------------------------ vtables
@@ -220,6 +248,8 @@ impl B {
             args,
             expected,
             stored,
+            filtered: false,
+            alt: None,
             point_queries: self.points,
             build_calls: self.calls,
         }
@@ -255,8 +285,15 @@ fn machinery(what: &str, key: &str, got: &Value) -> String {
 impl Listing {
     /// Build the store with `n` items through the real entry points and derive the expected listing.
     pub fn build(&self, n: usize) -> Result<Built, String> {
+        let mut b = self.build_store(n)?;
+        b.filtered = self.filtered;
+        Ok(b)
+    }
+
+    fn build_store(&self, n: usize) -> Result<Built, String> {
         match self.kind {
             Kind::Cw20Accounts => cw20_accounts(n),
+            Kind::Cw20AccountsEmptied => cw20_accounts_emptied(n),
             Kind::Cw20OwnerAllowances => cw20_owner_allowances(n),
             Kind::Cw20SpenderAllowances => cw20_spender_allowances(n),
             Kind::Cw1Allowances(p, at) => cw1_allowances(n, p, at),
@@ -307,6 +344,64 @@ fn cw20_accounts(n: usize) -> Result<Built, String> {
     }
     let stored = expected.iter().map(|(k, _)| k.clone()).collect();
     Ok(b.done(c, Map::new(), expected, stored))
+}
+
+/// positions (in key order) of the accounts that get emptied: a run at the start, in the middle and at the end
+pub fn emptied_positions(n: usize) -> Vec<usize> {
+    let mut v = vec![];
+    if n >= 6 {
+        let r = (n / 6).min(5);
+        v.extend(0..r);
+        v.extend(n / 2..n / 2 + r);
+        v.extend(n - r..n);
+    } else {
+        if n >= 2 {
+            v.push(0);
+        }
+        if n >= 4 {
+            v.push(n - 1);
+        }
+    }
+    v
+}
+
+/// n accounts, all funded at instantiation; runs of them then transfer their whole balance to a
+/// funded account. The emptied accounts keep a balance entry of 0.
+fn cw20_accounts_emptied(n: usize) -> Result<Built, String> {
+    let mut b = B::new();
+    let c = a("contract-cw20");
+    let sorted = sorted_users(n);
+    let emptied = emptied_positions(n);
+    let init: Vec<Value> = (0..n).map(|i| json!({"address": user(i), "amount": (100 + i).to_string()})).collect();
+    cw20_instantiate(&mut b, &c, init)?;
+    let mut bal: Vec<u128> = (0..n).map(|i| 100 + i as u128).collect();
+    if let Some(sink_pos) = (0..n).find(|p| !emptied.contains(p)) {
+        let (sink, sink_i) = sorted[sink_pos].clone();
+        for p in &emptied {
+            let (addr, i) = &sorted[*p];
+            b.exec(addr, &c, json!({"transfer": {"recipient": sink, "amount": bal[*i].to_string()}}))?;
+            bal[sink_i] += bal[*i];
+            bal[*i] = 0;
+        }
+    }
+    let mut all = vec![];
+    let mut funded = vec![];
+    for (p, (addr, i)) in sorted.iter().enumerate() {
+        let r = b.point(&c, json!({"balance": {"address": addr}}))?;
+        if r["balance"] != json!(bal[*i].to_string()) || (bal[*i] == 0) != emptied.contains(&p) {
+            return Err(machinery("balance", addr, &r));
+        }
+        all.push((Key::S(addr.clone()), json!(addr)));
+        if bal[*i] != 0 {
+            funded.push((Key::S(addr.clone()), json!(addr)));
+        }
+    }
+    let stored = all.iter().map(|(k, _)| k.clone()).collect();
+    let mut built = b.done(c, Map::new(), all, stored);
+    if !emptied.is_empty() {
+        built.alt = Some(funded);
+    }
+    Ok(built)
 }
 
 fn cw20_expiry(i: usize) -> Value {
